@@ -4,7 +4,7 @@
 set -u
 export GOFLAGS=-mod=mod GOPROXY=off GOSUMDB=off GOTOOLCHAIN=local; unset GOWORK
 id=$1; v=$2
-src=/tmp/seeded/$id/$v
+src=${SEED_SRC:-/tmp/seeded}/$id/$v
 wt=/tmp/confirm/$id$v
 out=/verif/seeded/$id-$v
 log=/tmp/confirm/$id$v.log
